@@ -88,15 +88,22 @@ fn exec_ops(ctx: &mut Ctx, ev: &Ev) {
         let ns = [!&a, !a.clone()];
         let va: Vec<bool> = (0..1usize << n).map(|m| a.value(m)).collect();
         let la_ = Lut::from(&a);
-        (a.is_zero(), a.is_one(), a.num_vars(), a.num_cubes(), va, la_, xs, ns, self_vals)
+        let long: Vec<Cube> = (0..la.len() + lb.len() + 3).map(|k| Cube::nth_var(k % (n + 2))).collect();
+        let dsts = vec![b.clone(), Esop::zero(n + 1), Esop::one(n + 2), Esop::from_cubes(n + 2, long.clone()), Esop::from_cubes(n + 3, long), Esop::zero(0)];
+        let routes = vmon::obs::clone_routes(&a, &dsts, &|x: &Esop, y: &Esop| x.num_vars() == y.num_vars() && x.cubes() == y.cubes() && Lut::from(x) == Lut::from(y));
+        (a.is_zero(), a.is_one(), a.num_vars(), a.num_cubes(), va, la_, xs, ns, self_vals, routes)
     });
-    let (isz, iso, nv, nc, va, lut_a, xs, ns, self_vals) = match r {
+    let (isz, iso, nv, nc, va, lut_a, xs, ns, self_vals, routes) = match r {
         Outcome::Returned(x) => x,
         Outcome::Panicked(msg) => {
             ctx.violate("no-panic", ev, "esop-ops", format!("Esop operation panicked: {}", msg));
             return;
         }
     };
+    match routes {
+        Ok(k) => ctx.checked("esop-clone-routes", k as u64),
+        Err(route) => ctx.violate("esop-clone-routes", ev, "clone", format!("{} does not give an Esop equal to the source {:?} (n={})", route, la, n)),
+    }
     let fa = xor_sets(n, &la);
     let fb = xor_sets(n, &lb);
     ctx.check("esop-value-parity", va == fa && nv == n && nc == la.len(), ev, "value", || "Esop::value is not the parity of its cubes".into());
@@ -378,6 +385,36 @@ fn main() {
                     }
                     exec_ops(ctx, &ops_ev(nn, &a, &b));
                 }
+                // long lists of dense cubes (most variables present, mostly positive), in the order of `Cube`'s own
+                // `Ord` (sorted input is what conversions from other forms produce), reversed, or shuffled
+                for r in 0..if thorough { 600 } else { 24 } {
+                    let nn = rng.range(6, 10);
+                    let len = *rng.pick(&[40usize, 64, 65, 100, 200, 300]);
+                    let mut cubes: Vec<CubeM> = (0..len)
+                        .map(|_| {
+                            let mut cb = CubeM::new(0, 0);
+                            for v in 0..nn {
+                                match rng.below(6) {
+                                    0..=2 => cb.pos |= 1 << v,
+                                    3 => cb.neg |= 1 << v,
+                                    _ => {}
+                                }
+                            }
+                            cb
+                        })
+                        .collect();
+                    match r % 3 {
+                        0 => cubes.sort_by(|x, y| x.real().cmp(&y.real())),
+                        1 => {
+                            cubes.sort_by(|x, y| x.real().cmp(&y.real()));
+                            cubes.reverse();
+                        }
+                        _ => {}
+                    }
+                    let b: Vec<CubeM> = (0..rng.range(0, 3)).map(|_| random_cube(nn, &mut rng)).collect();
+                    exec_ops(ctx, &ops_ev(nn, &cubes, &b));
+                    ctx.cell_only(&format!("esop-ops-long-dense|{}", ["sorted", "reverse-sorted", "unsorted"][r % 3]));
+                }
                 // long accumulations: 2..9 operands, converted tables and long cube lists drawn from a small pool
                 // (so that cubes repeat three times and more), earlier operands coming back
                 for _ in 0..if thorough { 1500 } else { 40 } {
@@ -446,6 +483,11 @@ fn main() {
     for n in 0..=10 {
         required.push(format!("pprm|n={}", n));
         required.push(format!("esop-ops|n={}", n));
+        if n == 0 {
+            for k in ["sorted", "reverse-sorted", "unsorted"] {
+                required.push(format!("esop-ops-long-dense|{}", k));
+            }
+        }
         if n >= 6 {
             required.push(format!("esop-chain|n={}|over-256-cubes", n));
         }
